@@ -102,6 +102,7 @@ Proof.
   destruct l; try (intros [= <-]; unfold unexpected_lit_type; rewrite len_ws; cbn; lia).
   - unfold float_from_string. destruct (pf b s); [discriminate|intros [= <-]; cbn; lia].
   - destruct (pf b digits); [discriminate|]. intros [= <-]. cbn. lia.
+  - destruct (pf b digits); [discriminate|]. intros [= <-]. cbn. lia.
 Qed.
 
 Lemma flag_pos : pos_fm flag_fm.
